@@ -394,6 +394,13 @@ def main(argv):
 
     warnings.simplefilter("ignore")
     ctx = Ctx(args.prop, args.tier, seed)
+    import signal
+
+    def _timeout(signum, frame):
+        raise InfraError("check exceeded its time limit (%s tier)" % args.tier)
+
+    signal.signal(signal.SIGALRM, _timeout)
+    signal.alarm(int(os.environ.get("VERIF_TIMEOUT", 1500 if args.tier == "quick" else 5400)))
     try:
         mod = importlib.import_module("harness.props.%s" % args.prop)
         if args.replay:
